@@ -104,3 +104,19 @@ def read_contributors(path):
 def carrier_of(path):
     p = str(path)
     return p + ".license" if os.path.exists(p + ".license") else p
+
+
+def place(rng, root, files):
+    """Where the command is run from and how root and files are spelled: -> (cwd, global args, [file args])."""
+    root = str(root)
+    files = [str(f) for f in files]
+    r = rng.random()
+    if r < 0.55:
+        return root, ["--no-multiprocessing", "--root", root], files
+    if r < 0.7:
+        return root, ["--no-multiprocessing", "--root", "."], [os.path.relpath(f, root) for f in files]
+    if r < 0.85:
+        cwd = os.path.dirname(files[0]) if files else root
+        return cwd, ["--no-multiprocessing", "--root", os.path.relpath(root, cwd)], [os.path.relpath(f, cwd) for f in files]
+    cwd = os.path.dirname(root)
+    return cwd, ["--no-multiprocessing", "--root", os.path.relpath(root, cwd)], [os.path.relpath(f, cwd) for f in files]
